@@ -32,7 +32,7 @@ FLOORS = {"trees:index>=10": 0.08, "trees:slashslash-middle": 0.15, "trees:field
           "trees:root-in-result": 0.08, "trees:NONTRIVIAL": 0.25}
 
 CLASS_NAMES = ["ASTNode", *M.CLASS_NAMES]
-FIELD_NAMES = sorted({f.name for c in M.TABLE for f in c.fields if f.is_child}) + ["root", "nosuchfield", "v"]
+FIELD_NAMES = sorted({f.name for c in M.TABLE for f in c.fields if f.is_child}) + ["root", "nosuchfield", "v", "target"]
 
 
 def chain_of(e: T.ENode, parent: dict) -> list[tuple]:
@@ -128,6 +128,21 @@ def check_tree(data: dict, lab: Labels) -> None:
             steps, relative, ws = xp[1], xp[2], xp[3]
             if relative and X.is_marker(steps[0]):
                 relative = False
+        elif xp[0] == "proplink":
+            # a step naming a *property* that holds a node: properties are values, nothing is stored there
+            refs = [e for e in nodes if e.cls == "Ref" and e.props.get("target") is not None]
+            if not refs:
+                continue
+            e = refs[xp[1] % len(refs)]
+            tv = b.of(e).target
+            tcls = type(tv[0] if isinstance(tv, tuple) else tv).__name__
+            steps = [{"field": None, "index": None, "cls": None}, {"field": None, "index": None, "cls": "Ref"},
+                     *([{"field": None, "index": None, "cls": None}] if xp[2] % 2 else []),
+                     {"field": "target", "index": ("" if xp[2] % 4 >= 2 and isinstance(tv, tuple) else None),
+                      "cls": [tcls, "Base", "ASTNode"][xp[2] % 3]}]  # (the last step always names a class)
+            relative = False
+            ws = 0
+            lab.tag("step-names-a-property-holding-a-node")
         elif xp[0] == "subseq":
             target = nodes[xp[1] % len(nodes)]
             steps, relative = X.subsequence_path(chains[target.uid], MRO_OF, xp[2], xp[3], xp[4])
@@ -173,17 +188,18 @@ def check_tree(data: dict, lab: Labels) -> None:
 
 
 def st_case(ctx: Ctx):
-    g = T.TreeGen(leaves=ctx.pick(10, 14), share=False, twins=True, origin_rate=0.05)
+    g = T.TreeGen(leaves=ctx.pick(10, 14), share=False, twins=True, origin_rate=0.05, refs=True)
     g2 = T.TreeGen(leaves=ctx.pick(8, 10), share=False, twins=True, origin_rate=0.0, detach_rate=0.3)
     raw = st.tuples(st.just("raw"), X.st_steps(CLASS_NAMES, FIELD_NAMES), st.booleans(), st.integers(0, 2**12)).map(list)
     derived = st.tuples(st.just("derived"), st.integers(0, 60), st.integers(0, 2**30), st.integers(0, 500),
                         st.sampled_from([0, 0, 0, 5, 1023, 77])).map(list)
     subseq = st.tuples(st.just("subseq"), st.integers(0, 60), st.integers(0, 255), st.integers(0, 255),
                        st.integers(0, 2**16)).map(list)
+    proplink = st.tuples(st.just("proplink"), st.integers(0, 20), st.integers(0, 11)).map(list)
     return st.fixed_dictionaries(
         {
             "tree": st.one_of(g.inner_tree(), g.inner_tree(), g.inner_tree(), g.tree(), g2.inner_tree()),
-            "xpaths": st.lists(st.one_of(raw, derived, derived, subseq, subseq), min_size=5, max_size=5),
+            "xpaths": st.lists(st.one_of(raw, derived, derived, subseq, subseq, proplink), min_size=5, max_size=5),
         }
     )
 
